@@ -215,6 +215,24 @@ def token_sequences_exhaustive(alphabet, maxlen):
     return out
 
 
+def token_sequences_of_length(alphabet, n):
+    """lazy: all sequences of exactly n tokens"""
+    import itertools
+    for t in itertools.product(alphabet, repeat=n):
+        yield list(t)
+
+
+def blocks(it, size=150000):
+    buf = []
+    for x in it:
+        buf.append(x)
+        if len(buf) >= size:
+            yield buf
+            buf = []
+    if buf:
+        yield buf
+
+
 def token_sequences_random(r, n, maxlen=12, alphabet=None):
     alphabet = alphabet or TOKEN_ALPHABET_FULL
     return [[r.choice(alphabet) for _ in range(r.randint(1, maxlen))] for _ in range(n)]
